@@ -71,6 +71,7 @@ def run(tier, seed):
     drv, err = build_driver()
     if err:
         res.broken.append(("model driver build", err))
+        drv = NO_MODEL
     for fl in (["O1"] if tier == "quick" else ["O1", "asan"]):
         h, err = build_harness(fl)
         if err:
